@@ -67,6 +67,7 @@ fn main() {
             tier,
             seed,
             workers,
+            out: std::env::var("VERIF_OUT").unwrap_or_else(|_| root.clone()),
             root,
             scale,
             only_scenario: only,
